@@ -309,6 +309,11 @@ func refusingReturns(p *Prog, fn *ssa.Function) []*ssa.Return {
 			if fi.errIsNil(r.Results[len(r.Results)-1], r, 0) == no {
 				out = append(out, r)
 			}
+		case isBoolType(last) && res.Len() >= 2:
+			// a helper that reports failure by a false last result next to another result
+			if fi.T(r.Results[len(r.Results)-1]).s == "false" {
+				out = append(out, r)
+			}
 		}
 	}
 	return out
@@ -379,6 +384,14 @@ func c10NoWriteBeforeRefusal(p *Prog, c *Check) {
 						placed := false
 						if et != nil && isErrorType(typeOf(et)) {
 							for e := range fi.edgesWhere(func(a Atom) bool { return a.L.s == et.s && a.Op == "==" && a.R.K == TNil }) {
+								wps = append(wps, wp{e[1], nil, call})
+								placed = true
+							}
+						}
+						if !placed && et != nil && isBoolType(typeOf(et)) && call.Common().Signature().Results().Len() >= 2 {
+							for e := range fi.edgesWhere(func(a Atom) bool {
+								return a.L.s == et.s && a.Op == "==" && (a.R == termTrue || a.R.s == "true")
+							}) {
 								wps = append(wps, wp{e[1], nil, call})
 								placed = true
 							}
@@ -858,4 +871,12 @@ func freeVarIsParentLocal(fn *ssa.Function, fv *ssa.FreeVar) bool {
 		}
 	}
 	return found
+}
+
+func isBoolType(t types.Type) bool {
+	if t == nil {
+		return false
+	}
+	b, ok := t.Underlying().(*types.Basic)
+	return ok && b.Kind() == types.Bool
 }
